@@ -60,10 +60,9 @@ Theorem returns_in_time T G start refs ticks from r :
   0 <= T -> 0 < G ->
   dense G from (r + T + G) ticks -> from <= r + T -> start <= from ->
   (forall t, r <= t -> t <= r + T + G -> last_refresh start refs t = r) ->
-  (forall t, t < r -> last_refresh start refs t <= t) ->
   exists t, take_timeout T start refs ticks = Some t /\ t <= r + T + G.
 Proof.
-  intros HT HG. revert from. induction ticks as [|x rest IH]; intros from Hd Hfrom Hs Hlast Hbefore.
+  intros HT HG. revert from. induction ticks as [|x rest IH]; intros from Hd Hfrom Hs Hlast.
   - cbn [dense] in Hd. lia.
   - cbn [dense] in Hd. destruct Hd as [Hx Hd]. cbn [take_timeout].
     destruct (Z.leb_spec (last_refresh start refs x + T) x) as [H|H].
